@@ -91,6 +91,30 @@ def returns(b):
     return out
 
 
+def no_global_state(ctx, rule):
+    """The crate keeps no process-wide or per-thread state (`static`, `thread_local!`, lazy statics): every answer
+    is a function of the arguments and of the object it is asked of, so no call can see leftovers of an earlier
+    one (a scratch buffer or cache reused across calls is exactly what this excludes; one needs review)."""
+    items = ctx.facts.raw.get("consts", [])
+    statics = sorted(c["path"] for c in items if c.get("static"))
+    ctx.check(not statics, rule, "crate", "no-statics", "no `static` item (thread-local or global) exists in the crate", detail=str(statics)[:300])
+    ctx.floor(rule, "crate", "constant items seen by the extractor (the scan is not vacuous)", len(items), 5)
+    # ... and no object carries a hidden memo: apart from SourceView's line index (whose discipline is C16's subject)
+    # no struct of the crate has an interior-mutable field (Cell, RefCell, OnceLock, Mutex, atomics, ...), so `&self`
+    # methods cannot remember earlier questions and answers cannot go stale behind a mutation
+    import re as _re
+    ALLOWED = {("sourceview::SourceView", "processed_until"), ("sourceview::SourceView", "lines")}
+    hidden, n_fields = [], 0
+    for path, a in sorted(ctx.facts.adts.items()):
+        for v in a.get("variants", []):
+            for fl in v.get("fields", []):
+                n_fields += 1
+                if _re.search(r"Cell<|OnceLock|OnceCell|Mutex<|RwLock<|Atomic|LazyLock|LazyCell|Condvar", fl["ty"]) and (path, fl["name"]) not in ALLOWED:
+                    hidden.append("%s.%s: %s" % (path, fl["name"], fl["ty"][:60]))
+    ctx.check(not hidden, rule, "crate", "no-hidden-memo", "no struct has an interior-mutable field besides SourceView's line index", detail=str(hidden)[:300])
+    ctx.floor(rule, "crate", "struct fields scanned", n_fields, 60)
+
+
 def iterator_overrides(ctx, rule):
     """The crate's iterators define `next` only: every other Iterator method (nth, step_by, skip, count, last, ...)
     is the provided one built on `next`, so what `next` is shown to do is what all of them do."""
